@@ -439,7 +439,17 @@ func (ex *Exec) selField(env *Env, b Val, sel string) Val {
 				nl := *loc
 				nl.Off += f.Off
 				nl.T = f.T
-				return env.st.load(&nl)
+				v := env.st.load(&nl)
+				closed := true
+				for _, l := range v.L {
+					if len(l.fb) > 0 {
+						closed = false
+					}
+				}
+				if closed {
+					ex.refFacts(env.st, v) // heap well-formedness of loaded references
+				}
+				return v
 			}
 		}
 		// promoted through embedded fields
@@ -750,7 +760,7 @@ func (ex *Exec) evalCall(env *Env, x *ECall) Val {
 		return scalar(bt, IntLt(env.old.alloc(), v.L[0]))
 	case "allocated":
 		v := ex.eval(env, args[0])
-		return scalar(bt, And(IntLt(IntC(0), v.L[0]), IntLe(v.L[0], env.st.alloc())))
+		return scalar(bt, And(Not(Eq(IntC(0), v.L[0])), IntLe(v.L[0], env.st.alloc())))
 	case "closed":
 		v := ex.eval(env, args[0])
 		return scalar(bt, Select(env.st.get("C:closed", ArrS(IntS, BoolS)), v.Term()))
@@ -793,6 +803,23 @@ func (ex *Exec) evalCall(env *Env, x *ECall) Val {
 		return ex.evalCallArg(env, args)
 	case "callres":
 		return ex.evalCallRes(env, args)
+	case "typeis":
+		// typeis(v, "T"): the dynamic type of interface value v is T
+		v := ex.eval(env, args[0])
+		t := ex.ld.resolveType(env.pkg, strArg(args[1]))
+		return scalar(bt, Eq(v.L[0], IntC(int64(ex.ld.typeTag(t)))))
+	case "as":
+		// as(v, "T"): the value stored in interface v, read as a T (meaningful when typeis(v, "T"))
+		v := ex.eval(env, args[0])
+		t := ex.ld.resolveType(env.pkg, strArg(args[1]))
+		return ex.unbox(env.st, v, t)
+	case "deref":
+		v := ex.eval(env, args[0])
+		return ex.deref(env, v)
+	case "sameblock":
+		// sameblock(a, b): the two slices share their backing array
+		a, b := ex.eval(env, args[0]), ex.eval(env, args[1])
+		return scalar(bt, And(Eq(sliceArr(a), sliceArr(b)), Not(Eq(sliceArr(a), IntC(0)))))
 	case "isclosure":
 		// isclosure(v, "Fn$1"): v is the closure created from that function literal in this execution
 		v := ex.eval(env, args[0])
